@@ -703,6 +703,7 @@ def run(ctx: RuleContext, p: Program) -> None:
     ctx.try_rule(c12.rule_gram_look, p, c12.grammar(p), 'GRAM-LOOK')
     from . import treesem
     ctx.try_rule(treesem.rule_tree_sem, p, 'TREE-SEM')
+    ctx.try_rule(treesem.rule_reg_sem, p, 'REG-SEM')
     ctx.not_decided += ['that lark accepts a given text', 'that the LALR tree\'s leaves are visited in token order', 'CR/LF layouts',
                         'comment attribution effects (C04/C14)', 'spans of sub-models']
     ctx.assumptions += ['lark lexers emit tokens whose values concatenate to the input (contextual lexer, no %ignore left after '
